@@ -131,6 +131,9 @@ def judge(case, ctx, prefix='C07'):
             if [b.node1, b.node2] != list(c['nodes']):
                 ctx.violation(f'{prefix}/terminal-order/{c["ctor"]}', f'{c["id"]!r}: branch nodes {(b.node1, b.node2)!r}, component nodes {c["nodes"]!r}', {})
                 continue
+            if on_gating_boundary(c, w, w_res):
+                ctx.count('set_aside_on_the_resolution_boundary')      # |w - w_source| == w_resolution up to rounding: either answer is right
+                continue
             rb = circdesc.ref_branch(c, w, w_res)
             periodic = circdesc.is_periodic(c)
             amp = abs(c['args'].get('V', c['args'].get('I', 0.0))) if periodic else 0.0
@@ -147,6 +150,17 @@ def judge(case, ctx, prefix='C07'):
     if raised(nets) and not any(True for _ in []):
         ctx.count('list_form_raised')
     ctx.sample(case)
+
+
+def on_gating_boundary(c, w, w_res):
+    """is the distance between w and the source's (harmonic) frequency equal to the resolution up to float rounding?"""
+    f = circdesc.source_frequency(c)
+    if circdesc.is_periodic(c):
+        w0 = c['args']['w']
+        f = round(w / w0) * w0
+    if f is None:
+        return False
+    return abs(abs(w - f) - w_res) <= 1e-9 * max(abs(w), abs(f), 1.0)
 
 
 def _nan_equal(n1, n2):
